@@ -15,7 +15,6 @@ KNOWN_TEXT = {
     "bitfield_unit_misplaced": "a bit-field allocation unit is emitted with alignment 1 right after the previous field, although libclang's bit offsets put its first bit-field further on (e.g. struct { char a; int b : 30; }: b at bit 32, unit at byte 1): accessors read/write the wrong bytes",
     "packed_member_gap": "a packed record never gets padding fields: a gap the C compiler leaves in front of a member (member-level aligned(N) inside #pragma pack / packed) is lost, later members and the size are too small",
     "union_bitfields_dropped": "a run of bit-fields in a union that ends with a zero-width bit-field is dropped altogether (no unit, no accessors): the union is smaller than in C (e.g. union { int : 22; unsigned int : 0; } is 1 byte instead of 3)",
-    "tail_padding_underflow": "--explicit-padding: comp_layout.size - latest_offset underflows in add_tail_padding (union in wrapper form with a bit-field unit): panic with overflow checks",
 }
 
 
